@@ -30,12 +30,13 @@ type EndEvent struct {
 
 // TCPConn is one endpoint of a simulated TCP connection.
 type TCPConn struct {
-	w      *World
-	Rec    *ConnRec
-	side   int
-	peer   *TCPConn
-	local  *net.TCPAddr
-	remote *net.TCPAddr
+	linger0 bool // SetLinger(0): Close is abortive
+	w       *World
+	Rec     *ConnRec
+	side    int
+	peer    *TCPConn
+	local   *net.TCPAddr
+	remote  *net.TCPAddr
 
 	rbuf        []byte
 	rfin        bool
@@ -298,7 +299,11 @@ func (c *TCPConn) Close() error {
 	c.closed = true
 	c.rdl.ev.Cancel()
 	c.wdl.ev.Cancel()
-	if (len(c.rbuf) > 0 || c.dropped) && !c.rst {
+	if c.linger0 && !c.rst && !c.peer.closed {
+		simrt.Fault("abortive_close_linger0")
+		c.ev("rst-sent")
+		c.peer.gotRST()
+	} else if (len(c.rbuf) > 0 || c.dropped) && !c.rst {
 		// Unread inbound data at close: the stack answers with RST.
 		c.ev("rst-sent")
 		c.peer.gotRST()
@@ -373,9 +378,18 @@ func (c *TCPConn) SetWriteDeadline(t time.Time) error {
 func (c *TCPConn) SetKeepAlive(bool) error                { return nil }
 func (c *TCPConn) SetKeepAlivePeriod(time.Duration) error { return nil }
 func (c *TCPConn) SetNoDelay(bool) error                  { return nil }
-func (c *TCPConn) SetLinger(int) error                    { return nil }
-func (c *TCPConn) SetReadBuffer(int) error                { return nil }
-func (c *TCPConn) SetWriteBuffer(int) error               { return nil }
+
+// SetLinger(0) makes Close abortive (SO_LINGER 0): an RST instead of a FIN, and
+// whatever the peer application has not read yet is lost (zero-latency model:
+// data still queued towards the peer and data queued at the peer are one).
+func (c *TCPConn) SetLinger(sec int) error {
+	if c != nil {
+		c.linger0 = sec == 0
+	}
+	return nil
+}
+func (c *TCPConn) SetReadBuffer(int) error  { return nil }
+func (c *TCPConn) SetWriteBuffer(int) error { return nil }
 
 // IsClosed reports whether the endpoint was closed by its owner.
 func (c *TCPConn) IsClosed() bool { return c.closed }
